@@ -3,12 +3,13 @@ import torch
 
 from ..envs import SPECS, episode_cases, py_instance
 from ..oracles.scheduling import FFSPModel, JobShopModel, judge_ffsp, judge_jobshop, judge_smtwtp
-from ..play import play
+from ..play import play, stepwise_reward_check
 from ..runner import Sub
 
 PROPERTY = "C07"
 RULE = (
-    "case = FJSP / JSSP (mask_no_ops on/off, variable ops per job => padded batches, eligibility 1..M, generator and "
+    "case = FJSP / JSSP (mask_no_ops on/off, stepwise_reward on/off [step rewards must sum to -(makespan - largest lower "
+    "bound of the reset state)], check_mask on/off [must never raise], variable ops per job => padded batches, eligibility 1..M, generator and "
     "hand-built integer instances) / FFSP / SMTWTP + batch + per-row choice streams biased to waits. Oracles: (1) "
     "independent validity predicate over the final schedule (every real op once, eligible machine, exact processing "
     "time, job precedence, machine exclusivity, padded ops untouched) and makespan == -reward; (2) reference "
@@ -28,11 +29,14 @@ ENVS = ["fjsp", "jssp", "ffsp", "smtwtp"]
 
 
 def execute(case, ctx):
-    spec, env, inst, insts, ep = play(case, ctx)
+    stepwise = bool(case["cfg"].get("stepwise"))
+    spec, env, inst, insts, ep = play(case, ctx, keep_states=stepwise)
     name = case["env"]
     cfg = case["cfg"]
     sl = spec.slice_of(cfg)
     ctx.event(f"env:{name}|{sl}")
+    if cfg.get("check_mask"):
+        ctx.event(f"env:{name}|check_mask=True")
     if ep.dead_end is not None or ep.cap_hit or ep.T == 0:
         ctx.event("aborted_episode(C02 territory)")
         return
@@ -93,6 +97,10 @@ def execute(case, ctx):
             waits = model.waits
         if abs(float(rew[b]) - v.obj) > 1e-5 * (1 + v.terms):
             ctx.violation(f"{name}|{sl}|makespan", f"reward {float(rew[b])} != -makespan {v.obj}", {**det, "final": final})
+        if stepwise and name in ("fjsp", "jssp") and not v.viol and model.done:
+            # stepwise_reward=True: the per-step rewards telescope to -(makespan - initial lower bound); the makespan is
+            # the reference simulator's (instance + actions), the reported makespan above is still -get_reward(td, actions)
+            stepwise_reward_check(ctx, name, sl, ep, b, max(model.finish[o] for o in model.assign), det)
         if waits >= 1:
             ctx.event("row_with_wait_or_time_advance")
             ctx.nontriv({"c": case, "row": b})
